@@ -1,6 +1,6 @@
 (* Entry points of the extracted model: one number per model function. *)
 From Coq Require Import ZArith List.
-From Tdda Require Import Base.Sexp RefTest.Argv RefTest.Tagged Serial.DateFmt RefTest.CheckStrings RefTest.Artefacts.
+From Tdda Require Import Base.Sexp RefTest.Argv RefTest.Tagged Serial.DateFmt RefTest.CheckStrings RefTest.Artefacts RefTest.Regen.
 Import ListNotations.
 Open Scope Z_scope.
 
@@ -13,5 +13,6 @@ Definition dispatch (n : Z) (s : sexp) : sexp :=
   | 5 => splitlines_entry s
   | 6 => binary_entry s
   | 7 => artefacts_entry s
+  | 8 => regen_entry s
   | _ => L [A (-1)]
   end.
